@@ -14,6 +14,7 @@
    [lt3] = strictly increasing in (time, probe index, index within the probe), lexicographically. *)
 From Coq Require Import ZArith List Bool Sorted Permutation Lia.
 From PV Require Import Base.NpSort Base.NpSearch C11.Model C11.Spec C11.Proofs C11.Proofs2 C11.Proofs3.
+From PV Require Import C11.Clauses C11.Complete C11.Dtype C11.Frame.
 Import ListNotations.
 Open Scope Z_scope.
 
@@ -265,3 +266,246 @@ Proof.
     exists (mktag 0 1 2 20 1 1), (mktag 1 0 3 30 0 0). cbn. repeat split; auto; discriminate.
 Qed.
 Print Assumptions C11_template_count_needed.
+
+(* ======================================================================================================
+   Stage 3.  (a) every boolean clause of the comparator is true EXACTLY when its declarative reading holds;
+   (b) the output of the proven model satisfies every clause; (c) fixed-width integer arithmetic never wraps;
+   (d) the input directories are not written to.
+   ====================================================================================================== *)
+
+(* ---- (a) clause 21 ---- *)
+Theorem C11_checker_perm_iff : forall (A V F : Type) (ps : list (probe A V F)) (o : obs A V F),
+  c_perm ps o = true <->
+  (length (o_amps o) = length (o_times o) /\ length (o_tmpl o) = length (o_times o) /\
+   length (o_clu o) = length (o_times o)) /\
+  Permutation (o_times o) (concat (map (@p_times A V F) ps)).
+Proof. exact (@c_perm_iff). Qed.
+Print Assumptions C11_checker_perm_iff.
+
+(* ---- clause 22: times non-decreasing; the merged rows attributed to probe k, shifted back, are probe k's rows in
+   stable time order; consecutive merged spikes are attributed to probes, and at equal times the probe index does not
+   decrease (TiesByProbe) ---- *)
+Theorem C11_checker_sorted_iff : forall (A V F : Type) (aeqb : A -> A -> bool), (forall a b, aeqb a b = true <-> a = b) ->
+  forall (ps : list (probe A V F)) (o : obs A V F),
+  c_sorted aeqb ps o = true <->
+  StronglySorted Z.le (o_times o) /\
+  (forall k p, nth_error ps k = Some p -> sub_rows ps o k = sort_rows (rows_of p)) /\
+  (forall i a b,
+     nth_error (map (fun r => (r_time r, find_probe 0 ps (o_coffs o) (r_clu r))) (obs_rows o)) i = Some a ->
+     nth_error (map (fun r => (r_time r, find_probe 0 ps (o_coffs o) (r_clu r))) (obs_rows o)) (S i) = Some b ->
+     exists k1 k2, snd a = Some k1 /\ snd b = Some k2 /\ (fst a = fst b -> (k1 <= k2)%nat)).
+Proof. exact (@c_sorted_iff). Qed.
+Print Assumptions C11_checker_sorted_iff.
+
+(* ---- clause 23 ---- *)
+Theorem C11_checker_payload_iff : forall (A V F : Type) (aeqb : A -> A -> bool), (forall a b, aeqb a b = true <-> a = b) ->
+  forall (ps : list (probe A V F)) (o : obs A V F),
+  c_payload aeqb ps o = true <->
+  (length (o_amps o) = length (o_times o) /\ length (o_tmpl o) = length (o_times o) /\
+   length (o_clu o) = length (o_times o)) /\
+  o_coffs o = map (coff_spec ps) (seq 0 (length ps)) /\ o_toffs o = map (toff_spec ps) (seq 0 (length ps)) /\
+  length (o_times o) = length (concat (map (@rows_of A V F) ps)) /\
+  forall k p, nth_error ps k = Some p -> Permutation (sub_rows ps o k) (rows_of p).
+Proof. exact (@c_payload_iff). Qed.
+Print Assumptions C11_checker_payload_iff.
+
+(* ---- clause 24 ---- *)
+Theorem C11_checker_disjoint_iff : forall (A V F : Type) (ps : list (probe A V F)) (o : obs A V F),
+  c_disjoint ps o = true <->
+  length (o_coffs o) = length ps /\ length (o_toffs o) = length ps /\
+  forall j k pj pk, (j < k)%nat -> nth_error ps j = Some pj -> nth_error ps k = Some pk ->
+    (forall cj ck, nth_error (o_coffs o) j = Some cj -> nth_error (o_coffs o) k = Some ck ->
+                   cj + n_ids (clu_ids pj) <= ck \/ ck + n_ids (clu_ids pk) <= cj) /\
+    (forall tj tk, nth_error (o_toffs o) j = Some tj -> nth_error (o_toffs o) k = Some tk ->
+                   tj + p_ntmpl pj <= tk \/ tk + p_ntmpl pk <= tj).
+Proof. exact (@c_disjoint_iff). Qed.
+Print Assumptions C11_checker_disjoint_iff.
+
+(* find_probe, by which clauses 22, 23, 25 attribute a merged cluster id to a probe: the FIRST probe whose registered id
+   interval [off, off + n_ids) contains the id (the only one when clause 24 holds) *)
+Theorem C11_find_probe : forall (A V F : Type) (ps : list (probe A V F)) offs c k,
+  find_probe 0 ps offs c = Some k <->
+  in_iv ps offs k c /\ forall j, (j < k)%nat -> ~ in_iv ps offs j c.
+Proof.
+  intros A V F ps offs c k. rewrite (find_probe_iff ps offs 0 c k), Nat.sub_0_r. split; [tauto|]. intros H. split; [lia|exact H].
+Qed.
+Print Assumptions C11_find_probe.
+
+(* ---- clause 25 ---- *)
+Theorem C11_checker_cprobes_iff : forall (A V F : Type) (ps : list (probe A V F)) (o : obs A V F),
+  c_cprobes ps o = true <->
+  (forall k p off c, nth_error ps k = Some p -> nth_error (o_coffs o) k = Some off -> In c (clu_ids p) ->
+                     0 <= c + off /\ nth_error (o_cprobes o) (Z.to_nat (c + off)) = Some (Z.of_nat k)) /\
+  (forall i k', nth_error (o_cprobes o) i = Some k' ->
+                exists k, find_probe 0 ps (o_coffs o) (Z.of_nat i) = Some k /\ k' = Z.of_nat k).
+Proof. exact (@c_cprobes_iff). Qed.
+Print Assumptions C11_checker_cprobes_iff.
+
+(* ---- clause 26: per TSV name, MetaClause (rows strictly increasing; every row of every present probe file is in the
+   merged table at id + registered offset with the file's last value for that id; every merged row comes from a present
+   file; written iff some present file has a row, header of one of them); with the declarative offsets MetaClause IS the
+   conclusion Meta_out of C11_metadata ---- *)
+Theorem C11_checker_meta_iff : forall (A V F : Type) (veqb : V -> V -> bool) (feqb : F -> F -> bool),
+  (forall a b, veqb a b = true <-> a = b) -> (forall a b, feqb a b = true <-> a = b) ->
+  forall (ps : list (probe A V F)) (o : obs A V F),
+  (c_meta veqb feqb ps o = true <->
+   length (o_meta o) = n_meta_files /\
+   forall f, (f < n_meta_files)%nat -> MetaClause f ps (o_coffs o) (nth f (o_meta o) None)) /\
+  (forall f out, MetaClause f ps (map (coff_spec ps) (seq 0 (length ps))) out <-> Meta_out f ps out).
+Proof.
+  intros A V F veqb feqb Hv Hf ps o. split; [exact (c_meta_iff veqb feqb Hv Hf ps o)|]. intros f out. apply meta_clause_decl.
+Qed.
+Print Assumptions C11_checker_meta_iff.
+
+(* ---- clause 30 ---- *)
+Theorem C11_checker_width_iff : forall (A V F : Type) (ps : list (probe A V F)) otd ocd oid,
+  c_width ps (otd, ocd, oid) = true <->
+  (forall t, In t (concat (map (@p_times A V F) ps)) -> dt_min otd <= t <= dt_max otd) /\
+  (dt_min ocd <= 0 <= dt_max ocd) /\ (dt_min ocd <= coff_spec ps (length ps) - 1 <= dt_max ocd) /\
+  (dt_min oid <= 0 <= dt_max oid) /\ (dt_min oid <= toff_spec ps (length ps) - 1 <= dt_max oid).
+Proof. intros A V F ps otd ocd oid. exact (c_width_iff ps (otd, ocd, oid)). Qed.
+Print Assumptions C11_checker_width_iff.
+
+(* ---- (b) completeness against the model: on every well-formed input whose metadata ids are not negative, the output of
+   the model, presented as an observation (obs_of: returned model = written arrays, inputs untouched), satisfies every
+   clause 21-26: the comparator cannot reject a merge that equals the model ---- *)
+Theorem C11_checker_complete : forall (A V F : Type) (aeqb : A -> A -> bool) (veqb : V -> V -> bool) (feqb : F -> F -> bool),
+  (forall a b, aeqb a b = true <-> a = b) -> (forall a b, veqb a b = true <-> a = b) -> (forall a b, feqb a b = true <-> a = b) ->
+  forall (ps : list (probe A V F)) m, wf ps -> merge ps = Some m ->
+  (forall f, (f < n_meta_files)%nat -> meta_nonneg f ps) ->
+  c_perm ps (obs_of m) = true /\ c_sorted aeqb ps (obs_of m) = true /\ c_payload aeqb ps (obs_of m) = true /\
+  c_disjoint ps (obs_of m) = true /\ c_cprobes ps (obs_of m) = true /\ c_meta veqb feqb ps (obs_of m) = true.
+Proof.
+  intros A V F aeqb veqb feqb Ha Hv Hf ps m Hwf Hm Hnn. split; [exact (model_c_perm ps Hwf m Hm)|].
+  split; [exact (model_c_sorted ps Hwf m Hm aeqb Ha)|]. split; [exact (model_c_payload ps Hwf m Hm aeqb Ha)|].
+  split; [exact (model_c_disjoint ps Hwf m Hm)|]. split; [exact (model_c_cprobes ps Hwf m Hm Hnn)|].
+  exact (model_c_meta ps Hwf m Hm Hnn veqb feqb Hv Hf).
+Qed.
+Print Assumptions C11_checker_complete.
+
+Example C11_ex_clauses :
+  match merge ex_ps with
+  | Some m =>
+      let o := obs_of m in
+      (c_perm ex_ps o && c_sorted Z.eqb ex_ps o && c_payload Z.eqb ex_ps o && c_disjoint ex_ps o && c_cprobes ex_ps o &&
+       c_meta Z.eqb Z.eqb ex_ps o = true) /\
+      (* a spike of probe 1 relabelled into probe 0's cluster interval: payload and order clauses fail *)
+      c_payload Z.eqb ex_ps (mkobs (o_times o) (o_amps o) (o_tmpl o) [4; 0; 4; 2; 5; 10; 1; 6] (o_cprobes o) (o_coffs o) (o_toffs o)
+                                   (o_meta o) (o_ret o) (o_ret_meta o) true) = false /\
+      (* one entry of cluster_probes changed *)
+      c_cprobes ex_ps (mkobs (o_times o) (o_amps o) (o_tmpl o) (o_clu o) [0; 0; 0; 0; 1; 1; 1; 2; 2; 2; 2] (o_coffs o) (o_toffs o)
+                             (o_meta o) (o_ret o) (o_ret_meta o) true) = false /\
+      (* a metadata row kept at its unshifted id *)
+      c_meta Z.eqb Z.eqb ex_ps (mkobs (o_times o) (o_amps o) (o_tmpl o) (o_clu o) (o_cprobes o) (o_coffs o) (o_toffs o)
+                                      [Some (mkmeta 5 [(0, 100); (1, 102); (4, 101)]); None; Some (mkmeta 6 [(5, 7)])]
+                                      (o_ret o) (o_ret_meta o) true) = false
+  | None => False
+  end.
+Proof. vm_compute. repeat split; reflexivity. Qed.
+
+(* ---- (c) integer dtypes.  merge_dt t0 c0 i0 = the merge computed with NumPy's fixed-width arithmetic, t0 / c0 / i0 being
+   the dtypes in which the FIRST probe stores spike times / cluster ids / template ids.  On well-formed input whose times
+   are representable in t0's sign (dt_min t0 <= t) and below 2^63, with fewer than 2^63 cluster ids and templates in total:
+   it succeeds; its arrays are EXACTLY those of the Z-level merge (all theorems above apply to it); every merged value
+   lies within the dtype of its merged file (clause 30); and a dtype differs from the first probe's only when that one
+   cannot hold the largest value. ---- *)
+Theorem C11_no_wrap : forall (A V F : Type) (ps : list (probe A V F)) (t0 c0 i0 : idt), wf ps ->
+  (forall t, In t (concat_times ps) -> dt_min t0 <= t < 2 ^ 63) ->
+  coff_spec ps (length ps) <= 2 ^ 63 -> toff_spec ps (length ps) <= 2 ^ 63 ->
+  exists m td cd id,
+    merge_dt t0 c0 i0 ps = Some (m, (td, cd, id)) /\ merge ps = Some m /\
+    c_width ps (td, cd, id) = true /\
+    (forall t, In t (m_times m) -> dt_min td <= t <= dt_max td) /\
+    (forall c, In c (m_clu m) -> dt_min cd <= c <= dt_max cd) /\
+    (forall c, In c (m_tmpl m) -> dt_min id <= c <= dt_max id) /\
+    ((forall t, In t (concat_times ps) -> t <= dt_max t0) -> td = t0) /\
+    (coff_spec ps (length ps) - 1 <= dt_max c0 -> cd = c0) /\ (toff_spec ps (length ps) - 1 <= dt_max i0 -> id = i0).
+Proof. exact (@thm_no_wrap). Qed.
+Print Assumptions C11_no_wrap.
+
+(* phylib.io.merge._int_dtype: the chosen dtype holds the value and every value of the given dtype, is the given dtype when
+   that suffices, and exists for every value below 2^63 *)
+Theorem C11_int_dtype : forall d mx,
+  (forall d', int_dtype d mx = Some d' ->
+     mx <= dt_max d' /\ dt_min d' <= dt_min d /\ dt_max d <= dt_max d' /\ (mx <= dt_max d -> d' = d)) /\
+  (mx < 2 ^ 63 -> exists d', int_dtype d mx = Some d').
+Proof. intros d mx. split; [intros d'; apply int_dtype_holds|apply int_dtype_some]. Qed.
+Print Assumptions C11_int_dtype.
+
+(* the boundary, and what the unrepaired arithmetic did beyond it.  Two probes storing template ids as uint16: probe 0 has
+   65531 templates (a spike of template 65530), probe 1 has 6 (a spike of template 5): 65537 templates in total.
+   merge_dt promotes the merged spike_templates to uint32 and the ids are 0, 65530, 65531, 65536.  The unrepaired code
+   shifted probe 1's ids in place in uint16 (old_shift): 5 + 65531 wraps to 0 -- the merged id of template 0 of probe 0.
+   With 5 templates in probe 1 (65536 in total, largest id 65535) uint16 is kept. *)
+Definition ex_u16 (n1 : Z) : list (probe Z Z Z) :=
+  [ mkprobe [1; 2] [10; 20] [0; 65530] [0; 1] 65531 [None; None; None];
+    mkprobe [3; 4] [30; 40] [0; n1 - 1] [0; 1] n1 [None; None; None] ].
+Theorem C11_wrap_boundary :
+  (exists m, merge_dt U64 U32 U16 (ex_u16 6) = Some (m, (U64, U32, U32)) /\ m_tmpl m = [0; 65530; 65531; 65536] /\
+             m_toffs m = [0; 65531]) /\
+  (exists m, merge_dt U64 U32 U16 (ex_u16 5) = Some (m, (U64, U32, U16)) /\ m_tmpl m = [0; 65530; 65531; 65535]) /\
+  old_shift U16 U16 65531 [0; 5] = Some [65531; 0] /\
+  (* cluster ids: a uint8 probe between two int32 probes wrapped silently in its own dtype *)
+  old_shift I32 U8 11 [0; 250] = Some [11; 5] /\
+  (* an offset out of the later probe's dtype raised OverflowError *)
+  old_shift I32 U8 301 [0; 2] = None.
+Proof.
+  split; [eexists; split; [vm_compute; reflexivity|split; reflexivity]|].
+  split; [eexists; split; [vm_compute; reflexivity|reflexivity]|]. repeat split; vm_compute; reflexivity.
+Qed.
+Print Assumptions C11_wrap_boundary.
+
+Example C11_ex_no_wrap : exists m, merge_dt U64 U32 U32 ex_ps = Some (m, (U64, U32, U32)) /\ merge ex_ps = Some m.
+Proof. eexists. split; vm_compute; reflexivity. Qed.
+
+(* ---- (d) the input directories.  File system = (directory, file name) -> content; merge_fs reads the probe directories,
+   runs the model and writes the merged files under out. ---- *)
+Theorem C11_frame : forall (A V F D : Type) (deqb : D -> D -> bool), (forall a b, deqb a b = true <-> a = b) ->
+  forall (s : @fs A V F D) dirs out s', merge_fs deqb s dirs out = Some s' -> forall d n, d <> out -> s' d n = s d n.
+Proof. exact (@thm_frame). Qed.
+Print Assumptions C11_frame.
+
+Theorem C11_inputs_unchanged : forall (A V F D : Type) (deqb : D -> D -> bool), (forall a b, deqb a b = true <-> a = b) ->
+  forall (s : @fs A V F D) dirs out s', ~ In out dirs -> merge_fs deqb s dirs out = Some s' ->
+  forall d n, In d dirs -> s' d n = s d n.
+Proof. exact (@thm_inputs_unchanged). Qed.
+Print Assumptions C11_inputs_unchanged.
+
+(* the merged files are a function of the probe directories alone, and they are the arrays of the model *)
+Theorem C11_reads_only_inputs : forall (A V F D : Type) (deqb : D -> D -> bool), (forall a b, deqb a b = true <-> a = b) ->
+  forall (s1 s2 : @fs A V F D) dirs out, (forall d n, In d dirs -> s1 d n = s2 d n) ->
+  match merge_fs deqb s1 dirs out, merge_fs deqb s2 dirs out with
+  | Some s1', Some s2' => exists ps m, read_probes s1 dirs = Some ps /\ read_probes s2 dirs = Some ps /\ merge ps = Some m /\
+                                       forall n c, In (n, c) (out_files m) -> s1' out n = s2' out n
+  | None, None => True
+  | _, _ => False
+  end.
+Proof. exact (@thm_reads_only_inputs). Qed.
+Print Assumptions C11_reads_only_inputs.
+
+Theorem C11_written_files : forall (A V F D : Type) (deqb : D -> D -> bool), (forall a b, deqb a b = true <-> a = b) ->
+  forall (s : @fs A V F D) dirs out s' ps m, merge_fs deqb s dirs out = Some s' -> read_probes s dirs = Some ps -> merge ps = Some m ->
+  s' out FTimes = Some (CInts (m_times m)) /\ s' out FAmps = Some (CAmps (m_amps m)) /\
+  s' out FTmpl = Some (CInts (m_tmpl m)) /\ s' out FClu = Some (CInts (m_clu m)) /\
+  s' out FCprobes = Some (CInts (m_cprobes m)).
+Proof. exact (@thm_written). Qed.
+Print Assumptions C11_written_files.
+
+(* non-vacuity, and why out must not be one of the inputs: directory 0 holds a probe whose two spikes are not in time
+   order; merging [0] into directory 1 leaves directory 0 as it was and writes the sorted times to 1; merging [0] into 0
+   itself replaces the input's spike_times *)
+Definition ex_fs : @fs Z Z Z nat := fun d n =>
+  match d, n with
+  | O, FTimes => Some (CInts [2; 1]) | O, FAmps => Some (CAmps [10; 20]) | O, FTmpl => Some (CInts [0; 1])
+  | O, FClu => Some (CInts [0; 1]) | O, FTemplates => Some (CRows 2)
+  | _, _ => None
+  end.
+Theorem C11_frame_needs_distinct_out :
+  (exists s', merge_fs Nat.eqb ex_fs [0%nat] 1%nat = Some s' /\ s' 0%nat FTimes = Some (CInts [2; 1]) /\
+              s' 1%nat FTimes = Some (CInts [1; 2]) /\ s' 1%nat FClu = Some (CInts [1; 0])) /\
+  (exists s', merge_fs Nat.eqb ex_fs [0%nat] 0%nat = Some s' /\ s' 0%nat FTimes = Some (CInts [1; 2]) /\
+              s' 0%nat FTimes <> ex_fs 0%nat FTimes).
+Proof.
+  split; eexists; (split; [vm_compute; reflexivity|]); repeat split; try (vm_compute; reflexivity). vm_compute. discriminate.
+Qed.
+Print Assumptions C11_frame_needs_distinct_out.
